@@ -159,6 +159,7 @@ func verifyFunction(l *Loaded, specs *Specs, ct *Contract) (rep *FuncReport, w *
 		}
 	}
 	fr.entry = st.clone()
+	w.topEntry = fr.entry
 	entryEnv := w.contractEnv(fr, fr.entry, fr.entry)
 	for _, rq := range ct.Requires {
 		w.sc.assume(w.evalBool(entryEnv, rq.Expr))
@@ -222,6 +223,17 @@ func verifyFunction(l *Loaded, specs *Specs, ct *Contract) (rep *FuncReport, w *
 	if ct.ModStated && !ct.ModAll {
 		w.frameObligations(fr, ct, exit, env)
 	}
+	// an "at" assertion whose instruction no longer exists in the body is undecided, not passed
+	for _, as := range ct.Asserts {
+		if !w.firedAsserts[as] {
+			props := as.Clause.Props
+			if len(props) == 0 {
+				props = ct.Props
+			}
+			o := w.oblige("assert", fmt.Sprintf("at.%s%d.%s", as.Kind, as.Ord, as.Clause.Label), tTrue, tFalse, as.Clause.Star, props)
+			o.Result = &SolverResult{Status: "target-missing", Output: fmt.Sprintf("the contract attaches an assertion to %s #%d of %s, which is not in the function body (any more)", as.Kind, as.Ord, ct.Name)}
+		}
+	}
 	if ct.Opts["maprange"] == "deterministic" {
 		n := 0
 		for _, o := range w.obls {
@@ -234,6 +246,16 @@ func verifyFunction(l *Loaded, specs *Specs, ct *Contract) (rep *FuncReport, w *
 			w.oblige("loop.det", "maprange.none", tTrue, tTrue, true, ct.Props)
 			w.assumption("a function without a range over a map (and without calls that have one, other than trusted helpers) is independent of map iteration order")
 		}
+	}
+	if ct.Opts["verify"] == "callsites" {
+		// the contract itself is assumed; only the obligations at the calls made by the body are kept
+		var kept []*Obligation
+		for _, o := range w.obls {
+			if (o.Kind == "call.pre" && o.Star) || o.Kind == "guard" {
+				kept = append(kept, o)
+			}
+		}
+		w.obls = kept
 	}
 	// reachability of a normal return (vacuity guard)
 	o := w.oblige("vacuity", "reach.return", tTrue, tTrue, false, ct.Props)
@@ -304,7 +326,11 @@ func (w *World) frameObligations(fr *Frame, ct *Contract, exit *State, env *CEnv
 			q := w.sc.fresh("frame.idx", idxSort)
 			var except []Term
 			for _, t := range byKey[k] {
-				except = append(except, eq(q, t.idx))
+				if t.member != nil {
+					except = append(except, t.member(q))
+				} else {
+					except = append(except, eq(q, t.idx))
+				}
 			}
 			guard := not(or(except...))
 			if idxSort == SInt && !strings.HasPrefix(k, "G!") {
@@ -327,7 +353,7 @@ func (o *Obligation) query(w *World) string {
 		b.WriteString(f)
 		b.WriteByte('\n')
 	}
-	body := w.sc.prefix(o.Mark) + "\n" + o.Goal.S
+	body := w.sc.prefix(o.Mark) + "\n" + strings.Join(o.Extra, "\n") + "\n" + o.Goal.S
 	// definitions of the prelude used by the body count as part of it
 	for changed, seen := true, map[int]bool{}; changed; {
 		changed = false
@@ -355,6 +381,10 @@ func (o *Obligation) query(w *World) string {
 	}
 	b.WriteString(w.sc.prefix(o.Mark))
 	b.WriteByte('\n')
+	for _, ln := range o.Extra {
+		b.WriteString(ln)
+		b.WriteByte('\n')
+	}
 	if o.Expect == "sat" {
 		b.WriteString("(assert " + o.Goal.S + ")\n")
 	} else {
@@ -487,7 +517,7 @@ func cmdVerify(args []string) {
 	}
 	var keys []string
 	for k, ct := range specs.Contracts {
-		if ct.Kind == "func" && !ct.Trusted && ct.Pkg == pkgPath && (len(want) == 0 || want[ct.Name]) {
+		if ct.Kind == "func" && (!ct.Trusted || ct.Opts["verify"] == "callsites") && ct.Pkg == pkgPath && (len(want) == 0 || want[ct.Name]) {
 			keys = append(keys, k)
 		}
 	}
